@@ -31,12 +31,13 @@ CLAIMS["C05"] = dict(
           "growable arrays before the next element access (R05j), borrowed field-owned pointers are not released (R05k), affine "
           "heap bounds (R05l), table dimensions by constant evaluation (R05f), resize_aln_mem sizes (R05n), infinite penalties "
           "rejected (R05o), gap-array zeroing from the old count to the new (R05s), single use of a va_list (R05t), no fclose "
-          "of a possibly-NULL stream (R05u). Each rule has must-fire / must-stay-silent controls or a floor of confirmed instances."),
+          "of a possibly-NULL stream (R05u), fixed-size locals filled under a counter are large enough for the largest index the "
+          "counter reaches (R05w). Each rule has must-fire / must-stay-silent controls or a floor of confirmed instances."),
     note=("Clauses only: termination, index safety inside the DP and bit-parallel kernels, integer overflow and malloc "
           "failure paths are NOT decided (goto-analyzer could not bound the kernels; DESIGN section 1). Assumes C-locale "
           "ctype semantics and 8-bit signed plain char."),
     technique="AST/CFG dataflow rules: byte-domain index evaluation, must-assign, error-status discipline, typestate on out-parameters, call-graph reachability",
-    design_ref="DESIGN.md section 3, C05 (R05a-R05u)")
+    design_ref="DESIGN.md section 3, C05 (R05a-R05w)")
 
 CLAIMS["C01"] = dict(
     text=("Decides four structural clauses that the anchors of the property name: (R01a) on every CFG path of kalign_run / "
@@ -48,11 +49,13 @@ CLAIMS["C01"] = dict(
           "every loop over gap slots covers len+1 slots and the writers emit exactly [0, alnlen) (R01e/f); make_seq's two new-gap "
           "vectors never overlap and all carriers of gap counts are int wide (R01g); no length-capped name copy between records "
           "is reachable from the API (R01h); finalise_alignment renders all numseq sequences and make_linear_sequence writes "
-          "the gaps[j] dashes in front of residue j (R01i)."),
+          "the gaps[j] dashes in front of residue j (R01i); nothing reachable from kalign_run stores into an element of "
+          "msa_seq.seq before the rows are rendered (R01j) and no sorting call lies between kalign_run and the export in any API "
+          "function (R01k)."),
     note=("Clauses only: the gap arithmetic (make_seq, update_gaps, add_gap_info_to_path_n, mirror_path_n), equal row "
           "lengths and absence of all-gap columns are sums over run-time arrays and are NOT decided."),
     technique="CFG must-pass-through, who-may-read/write table, store provenance, typestate gate",
-    design_ref="DESIGN.md section 3, C01 (R01a-R01i)")
+    design_ref="DESIGN.md section 3, C01 (R01a-R01k)")
 
 CLAIMS["C03"] = dict(
     text=("Decides non-interference of the caller's order with the computation: the canonical (len,name) sort dominates "
@@ -86,11 +89,14 @@ CLAIMS["C06"] = dict(
           "store/copy into msa_seq.name is bounded by its buffer; no reader identifies a sequence by a prefix comparison; the "
           "writers emit exactly the columns [0, alnlen) of every row, for the loop shapes the rule can decide (counted "
           "per-column loop; cursor-controlled block loop) - any other shape is reported as 'no verdict' (exit 2); the test that "
-          "makes a block line the next row is equivalent to 'first character is not a blank' for every byte value."),
+          "makes a block line the next row is equivalent to 'first character is not a blank' for every byte value; "
+          "kalign_write_msa's effect summary contains no store into the rows, names or gap counts it writes; every string "
+          "write_msa_msf formats into a line is a literal, a sequence name, the strftime date or the base name from tlfilename, "
+          "so that no caller-supplied path can put the reader's '//' divider into the header."),
     note=("One clause family only: equality of the re-read alignment (block arithmetic at multiples of 60, name "
           "extraction over all names) is NOT decided - it needs the loop semantics over run-time widths."),
     technique="reader/writer token-set agreement from string literals, bounded-copy rule, prefix-comparison rule",
-    design_ref="DESIGN.md section 3, C06 (R06a-R06h)")
+    design_ref="DESIGN.md section 3, C06 (R06a-R06j)")
 
 CLAIMS["C15"] = dict(
     text=("Decides agreement inside write_msa_msf between header and body: the integer printed after 'MSF:' and every "
@@ -100,11 +106,13 @@ CLAIMS["C15"] = dict(
           "protein as protein and nucleotide as nucleic; the checksum accumulators are reduced in every iteration (no 32-bit "
           "overflow for long rows); row emission covers exactly [0, alnlen) for the recognised loop shapes (else: no verdict); "
           "the checksum formula's weights and modulus, the line ordering keys, the retry of a header line that did not fit "
-          "(size provably larger than needed), a precision on every %s of a name, and the FINAL-status gate of the writers."),
+          "(size provably larger than needed), a precision on every %s of a name, the FINAL-status gate of the writers, and the "
+          "label of a block row: the copy loop ends at strnlen/strlen of the name or at its NUL byte only (exit tests "
+          "evaluated for all 256 byte values), so it is the string the header lines print."),
     note=("Wrapping at 60, presence of every sequence in every block and the numerical GCG formula are NOT decided; a "
           "restructured emission loop yields exit 2 (no verdict), not a pass."),
     technique="reaching-definition agreement between header fields and emission bound; two-state evaluation of the type predicate",
-    design_ref="DESIGN.md section 3, C15 (R15a-R15j)")
+    design_ref="DESIGN.md section 3, C15 (R15a-R15l)")
 
 CLAIMS["C02"] = dict(
     text=("Decides the argument 'structured fork-join + non-interfering siblings + no thread-identity/-count dataflow => "
@@ -128,11 +136,13 @@ CLAIMS["C10"] = dict(
           "entries (counts never shrink), vectors hold 0 / +1 increments; make_seq applies one vector, unmodified, to "
           "exactly the members [0, nsip) of each group with length and counts of the same member; do_align builds "
           "sip[c] from all members of both children and nsip[c] as the sum; the two new-gap vectors never overlap and are int "
-          "wide; the accumulated counts are rendered for every sequence with slot j in front of residue j."),
+          "wide; the accumulated counts are rendered for every sequence with slot j in front of residue j; every omp task of the "
+          "merge recursion (child merges, gap weaving) is joined before the spawning function calls, stores shared data or "
+          "returns, so a parent never merges a group whose own merge is still running."),
     note=("Does not decide that update_gaps distributes the vector over the right slots (index arithmetic over run-time "
           "arrays), nor the path encoding produced by the DP kernels."),
     technique="interprocedural effect summary (who-may-write), store-form rule, exact affine loop ranges, argument agreement",
-    design_ref="DESIGN.md section 3, C10 (R10a-R10f)")
+    design_ref="DESIGN.md section 3, C10 (R10a-R10g)")
 
 CLAIMS["C07"] = dict(
     text=("Decides the structural necessary conditions of the meet-in-the-middle recursion: the three meetup functions "
